@@ -129,6 +129,18 @@ pub fn dispatch(name: &str, args: &[&str]) -> Option<String> {
             };
             Some(format!("h{}", hex(text.as_bytes())))
         }
+        // jalloc h<text>  ->  <ok|err> <bytes requested from the allocator by Value::parse> <peak live bytes>
+        "jalloc" => {
+            let text = unhex_str(args[0]);
+            let (ok, total, peak) = crate::x_alloc::measure(|| Value::parse(&text).is_ok());
+            Some(format!("{} {} {}", if ok { "ok" } else { "err" }, total, peak))
+        }
+        // jsizes  ->  size_of::<Value>() size_of::<(String, Value)>()
+        "jsizes" => Some(format!(
+            "{} {}",
+            std::mem::size_of::<Value>(),
+            std::mem::size_of::<(String, Value)>()
+        )),
         // fdisp h<literal>  ->  <ok|bad> h<display text> <bits of literal> <bits of display reparsed>
         // (the f64 oracle: Display of the parsed literal, and whether it parses back to the same bits)
         "fdisp" => {
